@@ -1,0 +1,89 @@
+/*
+ * Copyright 2025 The RuleGo Authors.
+ *
+ * Licensed under the Apache License, Version 2.0 (the "License");
+ * you may not use this file except in compliance with the License.
+ * You may obtain a copy of the License at
+ *
+ *     http://www.apache.org/licenses/LICENSE-2.0
+ *
+ * Unless required by applicable law or agreed to in writing, software
+ * distributed under the License is distributed on an "AS IS" BASIS,
+ * WITHOUT WARRANTIES OR CONDITIONS OF ANY KIND, either express or implied.
+ * See the License for the specific language governing permissions and
+ * limitations under the License.
+ */
+
+package window
+
+import (
+	"testing"
+
+	"github.com/rulego/streamsql/aggregator"
+	"github.com/rulego/streamsql/types"
+)
+
+// A window built from a plain config (no evaluator supplied by a stream)
+// evaluates aggregate argument expressions, in SELECT and in TRIGGER WHEN.
+func TestGlobalWindow_ExpressionArguments(t *testing.T) {
+	gw, err := NewGlobalWindow(types.WindowConfig{
+		Type:             TypeGlobal,
+		GroupByKeys:      []string{"k"},
+		SelectFields:     map[string]aggregator.AggregateType{"s": aggregator.Sum, "cnt": aggregator.Count},
+		FieldAlias:       map[string]string{"s": "v", "cnt": "*"},
+		FieldExpressions: map[string]types.FieldExpression{"s": {Field: "v", Expression: "v * 2", Fields: []string{"v"}}},
+		TriggerCondition: "MAX((v + w) * 2) >= 16 AND SUM(v*2) >= 12",
+	})
+	if err != nil {
+		t.Fatalf("NewGlobalWindow: %v", err)
+	}
+	if len(gw.triggerSpecs) != 2 || gw.triggerSpecs[0].expr == nil || gw.triggerSpecs[1].outputAlias != "s" {
+		t.Fatalf("trigger specs = %+v, want an expression aggregate and a reuse of s", gw.triggerSpecs)
+	}
+	got := gw.collectOnCallback()
+	gw.Start()
+	defer gw.Stop()
+
+	for v := 1; v <= 3; v++ {
+		gw.Add(map[string]any{"k": "b", "v": v, "w": 5})
+	}
+	waitFor(t, func() bool { return len(got()) > 0 })
+	if s, _ := got()[0]["s"].(float64); s != 12 {
+		t.Errorf("s = %v, want 12", got()[0]["s"])
+	}
+	if c, _ := got()[0]["cnt"].(float64); c != 3 {
+		t.Errorf("cnt = %v, want 3", got()[0]["cnt"])
+	}
+}
+
+func TestFindAggCalls(t *testing.T) {
+	gw := &GlobalWindow{}
+	cases := []struct {
+		in   string
+		want []string // funcName:inputField
+	}{
+		{"COUNT(*) >= 3", []string{"count:*"}},
+		{"count ( ) >= 3", []string{"count:*"}},
+		{"sum ( ( v + w ) * 2 ) >= 50 && max ( abs ( v - w ) ) >= 4", []string{"sum:( v + w ) * 2", "max:abs ( v - w )"}},
+		{"abs(sum(v)) > 1", []string{"sum:v"}},
+		{"not ( count ( * ) < 3 )", []string{"count:*"}},
+		{"state == 'sum(v)' && x_count(v) > 1", nil},
+		{"count(CASE WHEN s == ')' THEN 1 END) > 0", []string{"count:CASE WHEN s == ')' THEN 1 END"}},
+	}
+	for _, c := range cases {
+		var got []string
+		for _, ref := range gw.findAggCalls(c.in) {
+			got = append(got, ref.funcName+":"+ref.inputField)
+		}
+		if len(got) != len(c.want) {
+			t.Errorf("findAggCalls(%q) = %q, want %q", c.in, got, c.want)
+			continue
+		}
+		for i := range got {
+			if got[i] != c.want[i] {
+				t.Errorf("findAggCalls(%q) = %q, want %q", c.in, got, c.want)
+				break
+			}
+		}
+	}
+}
